@@ -16,5 +16,6 @@ import Solvor.Cp.Theorems
 #print axioms Solvor.Cp.enc_sum_le
 #print axioms Solvor.Cp.enc_sum_ge
 #print axioms Solvor.Cp.enc_cumulative
+#print axioms Solvor.Cp.enc_circuit
 #print axioms Solvor.Cp.encode_compositional
-#print axioms Solvor.Cp.encode_model_exact_partial
+#print axioms Solvor.Cp.encode_model_exact
